@@ -73,30 +73,39 @@ type verifRWMutex struct {
 	mu      sync.RWMutex
 	writer  bool
 	readers int
+	pending int // writers waiting: like sync.RWMutex, a waiting writer blocks new readers
 }
 
 //go:norace
 func (m *verifRWMutex) canLock() bool { return !m.writer && m.readers == 0 }
 
 //go:norace
-func (m *verifRWMutex) canRLock() bool { return !m.writer }
+func (m *verifRWMutex) canRLock() bool { return !m.writer && m.pending == 0 }
 
 //go:norace
-func (m *verifRWMutex) note(writer bool, readers int) { m.writer = writer; m.readers += readers }
+func (m *verifRWMutex) note(writer bool, readers, pending int) {
+	m.writer = writer
+	m.readers += readers
+	m.pending += pending
+}
 
 // Lock locks for writing.
 func (m *verifRWMutex) Lock() {
 	verifYield("lock")
-	for i := 0; !m.canLock() && i < 1<<20; i++ {
-		verifYield("lock.wait")
+	if !m.canLock() {
+		m.note(false, 0, 1)
+		for i := 0; !m.canLock() && i < 1<<20; i++ {
+			verifYield("lock.wait")
+		}
+		m.note(false, 0, -1)
 	}
 	m.mu.Lock()
-	m.note(true, 0)
+	m.note(true, 0, 0)
 }
 
 // Unlock unlocks for writing.
 func (m *verifRWMutex) Unlock() {
-	m.note(false, 0)
+	m.note(false, 0, 0)
 	m.mu.Unlock()
 }
 
@@ -107,12 +116,12 @@ func (m *verifRWMutex) RLock() {
 		verifYield("lock.wait")
 	}
 	m.mu.RLock()
-	m.note(false, 1)
+	m.note(false, 1, 0)
 }
 
 // RUnlock undoes a single RLock.
 func (m *verifRWMutex) RUnlock() {
-	m.note(false, -1)
+	m.note(false, -1, 0)
 	m.mu.RUnlock()
 }
 
